@@ -55,3 +55,10 @@ Theorem C15_unresolvable_names_fail_the_transaction : forall S d l,
   (forall ops, expand l <> Ok ops) -> snd (transact_named S d l) = None.
 Proof. exact unresolved_names_fail. Qed.
 Print Assumptions C15_unresolvable_names_fail_the_transaction.
+
+(** the client API's Create: the insert generated for each model carries that
+    model's own identity, whatever the other models of the call hold *)
+Theorem C15_create_identities : forall ms i m,
+  nth_error ms i = Some m -> nth_error (map create_ids ms) i = Some (create_ids m).
+Proof. exact create_ids_pointwise. Qed.
+Print Assumptions C15_create_identities.
